@@ -23,6 +23,12 @@ pub struct C16Case {
     pub connect_session_expiry: Option<u32>,
     /// 0: no size limit, 1: limit == exact size, 2: limit == size - 1, 3: limit == size + 1, 4: tiny
     pub size_mode: u8,
+    /// > 0 (MQTT 5 PUBLISH only): the client uses an LRU outbound alias resolver and the server allows 2 aliases, so the
+    /// first publish to a topic carries topic + alias property (3 bytes more than the plain form); the server's Maximum
+    /// Packet Size is the plain size + {0, 1, 2} (modes 1-3: the aliased form does not fit and must not be sent) or + 12
+    /// (mode 4: it fits and must be sent)
+    #[serde(default)]
+    pub alias_mode: u8,
 }
 
 pub struct C16;
@@ -381,8 +387,8 @@ impl Property for C16 {
             3 => c16_unsubscribe().prop_map(AbsPacket::Unsubscribe),
             2 => c16_disconnect().prop_map(AbsPacket::Disconnect),
         ];
-        (prop::bool::weighted(0.75), packet, c16_connack(), option::weighted(0.5, prop_oneof![Just(0u32), Just(100u32)]), prop_oneof![5 => Just(0u8), 2 => Just(1u8), 2 => Just(2u8), 1 => Just(3u8), 1 => Just(4u8)])
-            .prop_map(|(v5, packet, connack, connect_session_expiry, size_mode)| C16Case { v5, packet, connack, connect_session_expiry, size_mode })
+        (prop::bool::weighted(0.75), packet, c16_connack(), option::weighted(0.5, prop_oneof![Just(0u32), Just(100u32)]), prop_oneof![5 => Just(0u8), 2 => Just(1u8), 2 => Just(2u8), 1 => Just(3u8), 1 => Just(4u8)], prop_oneof![12 => Just(0u8), 1 => Just(1u8), 1 => Just(2u8), 1 => Just(3u8), 1 => Just(4u8)])
+            .prop_map(|(v5, packet, connack, connect_session_expiry, size_mode, alias_mode)| C16Case { v5, packet, connack, connect_session_expiry, size_mode, alias_mode })
             .boxed()
     }
 
@@ -396,6 +402,42 @@ impl Property for C16 {
         let (st, st_why) = static_ok(&case.packet, case.v5);
         // size limit relative to the exact encoded size
         let size = if st == Tri::Yes { case.ref_size() } else { None };
+        // aliased form against the size limit (see C16Case::alias_mode)
+        if case.alias_mode > 0 && case.v5 && st == Tri::Yes && matches!(case.packet, AbsPacket::Publish(_)) {
+            if let Some(sz) = size {
+                let delta: u32 = match case.alias_mode {
+                    1 => 0,
+                    2 => 1,
+                    3 => 2,
+                    _ => 12,
+                };
+                let max = sz as u32 + delta;
+                if max >= 20 && max < 268_435_455 {
+                    let ck2 = ConnackTemplate { max_packet: Some(max), alias_max: Some(2), assign_client_id: false, ..ConnackTemplate::default() };
+                    let cfg = SimCfg { v5: true, connack: ck2, resolver: Resolver::Lru(2), buf_cap: 4096, drain: false, ..SimCfg::default() };
+                    let mut sim = Sim::new(&cfg);
+                    sim.auto(6, true);
+                    if sim.state() != EState::Connected {
+                        return CaseReport { labels, inconclusive: true, ..Default::default() };
+                    }
+                    let before = sim.tr.emitted.len();
+                    let tag = sim.submit_raw(out.clone());
+                    sim.auto(40, false);
+                    let sent: Option<usize> = sim.tr.emitted[before..].iter().find(|e| e.pkt.type_code() == 3).map(|e| e.end - e.start);
+                    let failed_validation = sim.tr.evs.iter().any(|e| matches!(e, Ev::Done { tag: t, done: Done::Err(EK::PacketValidation, _), .. } if Some(*t) == tag));
+                    labels.push(format!("aliased_publish_vs_size_limit:+{}", delta));
+                    if let Some(len) = sent {
+                        if len as u32 > max {
+                            violations.push(Violation::new("C16.invalid_sent", "PUBLISH v5: sent although it breaks a rule: larger than the server's Maximum Packet Size in the aliased form that is actually written", format!("{} bytes on the wire, maximum {} (plain form {} bytes)", len, max, sz)));
+                        }
+                    } else if delta == 12 {
+                        violations.push(Violation::new("C16.valid_rejected", "PUBLISH v5: a publish that fits the server's Maximum Packet Size in its aliased form is not sent", format!("plain form {} bytes, maximum {}, validation failure: {}", sz, max, failed_validation)));
+                    }
+                    let digest = hash_str(&format!("alias|{:?}", case));
+                    return CaseReport { violations, labels, nontrivial: true, digest, sample: Some(json!({"kind": "aliased publish against Maximum Packet Size", "plain_size": sz, "maximum_packet_size": max, "sent_bytes": sent})), ..Default::default() };
+                }
+            }
+        }
         let mut ck = case.connack.clone();
         if case.v5 {
             if let Some(sz) = size {
